@@ -261,15 +261,7 @@ def d4_join(facts, rep):
         # trivially destructible bodies have no destructor call in the instantiation; accept pseudo-destructor expressions too
         rep.ob('D4', 'K3', fn, 'the zombie body is destroyed only when it was constructed', ok,
                'destructor of zombie_space runs without has_right_zombie', key_extra='dtor')
-    for fn in facts.get(D1 + 'start_reduce::execute'):
-        news = [(p, s, nd) for p, s, nd in fn.stmt_elems(('new',)) if nd.get('pl')]
-        flag = [(p, s) for p, s, nd in fn.stmt_elems(('binop',)) if nd['op'] == '=' and last_member(fn, nd['l']) == 'has_right_zombie']
-        if not news:
-            raise AnalysisBroken('start_reduce::execute: placement new of the split body not found')
-        for p, s, nd in news:
-            ok, wit = every_path_passes(fn, p, lambda q, e: q in set(x[0] for x in flag))
-            rep.ob('D4', 'K3', fn, 'constructing the zombie body sets has_right_zombie on every path', ok,
-                   'a split body is constructed but never joined/destroyed: ' + wit, ln=nd['ln'])
+    zombie_pairing(facts, rep, 'D4')
     rep.floor('D4', 4, 'join guards + zombie pairing')
 
 
@@ -869,3 +861,38 @@ def d4_single_slot_storage(facts, rep):
                    detail + ' - the destructor of a user type runs on storage that never held an object', ln=nd.get('ln'), key_extra='slot|' + m['n'])
     if n < 3:
         raise AnalysisBroken('destructors destroying single-slot aligned_space members: %d (expected reduction_tree_node, final_sum, task_arena_function, ets_element)' % n)
+
+
+def zombie_pairing(facts, rep, clause):
+    """shared with C06 (D2): the record of the lazily split body agrees with its construction"""
+    # the lazily split body lives in raw storage of the tree node (zombie_space); has_right_zombie is the only record that it
+    # exists.  Wherever it is constructed (start_reduce::execute or a helper of the node): the flag is raised on every path after
+    # the construction - and NOT before it: the splitting constructor is user code and may throw, and a node that claims a body
+    # which was never constructed runs ~Body() on raw storage when the tree is folded.
+    nsites = 0
+    for fn in sorted(facts.fns.values(), key=lambda f: f.q):
+        if not fn.q.startswith(D1):
+            continue
+        news = [(p, s_, nd) for p, s_, nd in fn.stmt_elems(('new',)) if nd.get('pl') and
+                any(fn.nodes[x].get('k') == 'member' and fn.nodes[x].get('n') == 'zombie_space' for a in nd['pl'] for x in fn.subtree(a))]
+        if not news:
+            continue
+        flag = [(p, s_) for p, s_, nd in fn.stmt_elems(('binop',)) if nd['op'] == '=' and last_member(fn, nd['l']) == 'has_right_zombie' and fn.cv(nd['r']) == 1]
+        for p, s_, nd in news:
+            nsites += 1
+            ok, wit = every_path_passes(fn, p, lambda q, e: q in set(x[0] for x in flag))
+            if not ok and not flag:
+                # a helper that only constructs: every caller raises the flag after the call
+                cs = facts.callers(fn.u)
+                ok = bool(cs)
+                for g, cpos, cs_ in cs:
+                    gf = set(p2 for p2, s2, nd2 in g.stmt_elems(('binop',)) if nd2['op'] == '=' and last_member(g, nd2['l']) == 'has_right_zombie' and g.cv(nd2['r']) == 1)
+                    ok = ok and every_path_passes(g, cpos, lambda q, e, gf=gf: q in gf)[0]
+            rep.ob(clause, 'K3', fn, 'constructing the zombie body sets has_right_zombie on every path', ok,
+                   'a split body is constructed but never joined/destroyed: ' + wit, ln=nd['ln'])
+            early = [q for q, _ in flag if fn.can_reach(q, p)]
+            rep.ob(clause, 'K3', fn, 'has_right_zombie is raised only after the body has been constructed', not early,
+                   'the flag is raised before the splitting constructor (user code) has run: if it throws, the node claims a body that was '
+                   'never constructed and ~Body() runs on raw storage when the tree is folded', ln=nd['ln'], key_extra='flag-after')
+    if not nsites:
+        raise AnalysisBroken('no placement new into reduction_tree_node::zombie_space found (the lazy body split)')
